@@ -727,6 +727,11 @@ func replayCorpus(c *hx.Ctx) {
 			if len(toks) > 0 && toks[0] == "C15" {
 				toks = toks[1:]
 			}
+			if k, ok := parsePxCase(toks); ok {
+				emitPx(c, k)
+				c.Count("corpus")
+				continue
+			}
 			_, cfg, q, ok := parseCase(toks)
 			if !ok {
 				continue
@@ -752,6 +757,10 @@ func mixSeed(z uint64) uint64 {
 
 func Run(c *hx.Ctx) {
 	c.Rng = hx.NewRng(mixSeed(c.Seed))
+	if len(c.Args) > 0 && c.Args[0] == "px-only" { // development aid: only the request-path stream
+		runPxStream(c)
+		return
+	}
 	replayCorpus(c)
 	// fixed boundary configurations
 	for _, cfg := range boundaryConfigs() {
@@ -795,6 +804,8 @@ func Run(c *hx.Ctx) {
 		runCase(c, cfg, qs, len(cfg.selectors) > 0 && c.Rng.Chance(30))
 		c.Count("inner." + cfg.lbType)
 	}
+	// the request path: sequences of requests on one route through the real proxy core (c15px.go)
+	runPxStream(c)
 	if c.Thorough() {
 		exhaustiveSmall(c)
 	}
